@@ -340,6 +340,16 @@ func (g *g3) cond() ref.Tok {
 }
 
 var c03Pinned = []string{
+	// bind replaces every name whose value is an operator at that moment -
+	// also a name of the program's own that is an alias of an operator
+	"/plus /add load def /f {1 2 plus} bind def /plus {sub} def f",
+	"/plus /add load def /f { { 1 2 plus } exec } bind def /plus { sub } def f",
+	"/plus /add load def /f {1 2 plus} def /plus {sub} def f",
+	"/plus /add load def /f {1 2 plus} bind def /plus 7 def f",
+	"/dup2 /dup load def /f { 5 dup2 } bind def /dup2 { pop 9 } def f",
+	"<< /plus /add load >> begin {1 2 plus} bind end /plus {mul} def exec",
+	"<< /plus /add load >> begin {1 2 plus} bind end exec",
+	"/times /mul load def /plus /add load def /f { 2 3 times 4 plus } bind def /times { pop } def /plus { pop } def f",
 	// forall hands its elements to the body as operands, whatever they are:
 	// operator objects and executable names are pushed, not run
 	"[ /add load /sub load /mul load ] { 7 3 3 -1 roll exec } forall",
